@@ -85,6 +85,9 @@ var _ = strings.HasPrefix
 //@ props C11 C13 C07
 //@ use STREAM
 //@ requires REP(p) && CUR(p) && p.peekCount == 0
+//@ ensures result != nil && fresh(result)
+//@ modifies p.current, p.tokenArr, p.peekCount, p.err, fetched, p.TokenDefMap
+//@ allocates TokenDef
 //@ requires p.current.Kind == Charater ==> len(p.current.Value) >= 1
 //@ ensures [C13] REP(p) && CUR(p) && p.peekCount == 0 && fetched > old(fetched)
 //@ after_stmt [C11] "id := Idendity{" p.current.Kind == Charater ==> id.Value == int(rune_at(p.current.Value, 0))
@@ -103,6 +106,8 @@ var _ = strings.HasPrefix
 //@ props C11 C13 C04 C07
 //@ use STREAM
 //@ requires Tklist != nil && REP(p) && CUR(p) && p.peekCount == 0 && (p.current.Kind == Charater ==> len(p.current.Value) >= 1)
+//@ modifies p.current, p.tokenArr, p.peekCount, p.err, fetched, p.TokenDefMap, *Tklist
+//@ allocates arrays
 //@ ensures [C13] REP(p) && CUR(p) && p.peekCount == 0 && fetched > old(fetched)
 //@ after_stmt [C11] "idvalue = " idvalue == int(rune_at(p.current.Value, 0))
 // a token introduced by a precedence line: a character literal is numbered by its character, a name gets 0 (= to be numbered automatically); it carries the line's tag
@@ -116,7 +121,9 @@ var _ = strings.HasPrefix
 //@ use STREAM
 //@ results rules
 //@ requires toklst != nil && REP(p) && CUR(p) && p.peekCount <= 1 && SLOT1(p)
-//@ ensures [C13] REP(p) && TOK(p) && p.lex == old(p.lex) && (!isnil(rules) ==> CUR(p) && p.peekCount <= 1 && SLOT1(p) && fetched - p.peekCount > old(fetched - p.peekCount))
+//@ modifies p.current, p.tokenArr, p.peekCount, p.err, fetched, p.TokenDefMap, *toklst
+//@ allocates arrays
+//@ ensures [C13] REP(p) && TOK(p) && p.lex == old(p.lex) && (!isnil(rules) ==> CUR(p) && p.peekCount <= 1 && SLOT1(p) && fetched - p.peekCount > old(fetched - p.peekCount) && old(fetched - p.peekCount) <= spec_E())
 //@ after_stmt [C11] "id := Idendity{" id.Value == int(rune_at(p.current.Value, 0))
 // every alternative starts as a fresh rule of the same left-hand side: no %prec symbol and no right-hand side carried over from the previous alternative
 //@ after_stmt [C04,C07,C01,C17,C02,C06,C08] "rightpart = make([]RightSymOrAction, 0)" rule.PrecSym == "" && rule.LeftPart == Leftpart && len(rule.RightPart) == 0 && len(rightpart) == 0
@@ -490,6 +497,8 @@ func spec_sent(i int) Token { panic("spec") }
 //@ props C13
 //@ use STREAM
 //@ requires REP(p) && CUR(p) && p.peekCount == 0
+//@ modifies p.current, p.tokenArr, p.peekCount, p.err, fetched
+//@ allocates arrays
 //@ ensures [C13] REP(p) && CUR(p) && p.peekCount == 0 && fetched > old(fetched)
 //@ loop 0: invariant REP(p) && CUR(p) && p.peekCount == 0 && fetched > old(fetched)
 //@ loop 0: decreases spec_E() + 1 - fetched
@@ -497,6 +506,7 @@ func spec_sent(i int) Token { panic("spec") }
 //@ func (*parser).parseStartSymbol
 //@ props C13
 //@ requires REP(p) && CUR(p) && p.peekCount == 0
+//@ modifies p.current, p.tokenArr, p.peekCount, p.err, fetched
 //@ ensures [C13] REP(p) && CUR(p) && p.peekCount == 0 && fetched > old(fetched)
 
 // the declaration section: every iteration consumes at least one token, and the loop stops at the first EOF, Section or
@@ -506,6 +516,8 @@ func spec_sent(i int) Token { panic("spec") }
 //@ use STREAM
 //@ results node
 //@ requires p != nil && p.lex != nil && p.peekCount == 0 && fetched >= 0
+//@ modifies p.current, p.tokenArr, p.peekCount, p.err, fetched, p.TokenDefMap, Base.loc
+//@ allocates DeclareNode, TokenDef
 //@ ensures [C13] node != nil ==> REP(p) && CUR(p) && p.peekCount == 0 && typeis(node, *DeclareNode) && iface_val(node) != 0 && p.lex == old(p.lex)
 //@ loop 0: invariant REP(p) && CUR(p) && p.peekCount == 0 && p.lex == old(p.lex)
 //@ loop 0: decreases spec_E() + 1 - fetched
@@ -519,6 +531,9 @@ func spec_sent(i int) Token { panic("spec") }
 // the rule section: every successful parseRule consumes at least one token; the loop ends when parseRule finds no rule
 //@ func Parse
 //@ props C13
+//@ props_tagged_only C19
+//@ after_stmt [C19] "restcode := p.lex.input[p.current.EndAt:]" restcode == input[p.current.EndAt:]
+//@ before_stmt [C19] "return &RootNode{" true
 //@ use STREAM
 //@ requires fetched >= 0
 //@ loop 0: invariant p != nil && REP(p) && CUR(p) && p.peekCount <= 1 && SLOT1(p) && decl != nil && p.lex == before(p.lex)
@@ -556,3 +571,13 @@ func spec_sent(i int) Token { panic("spec") }
 // C09: state 0 is the closure of the augmented start item (rule 0, dot 0), and it is the only state when the worklist starts
 //@ before_stmt [C09,C01,C02,C06] "g.ComputeAllGoto()" len(g.LR0.LR0Closure) == 1 && g.LR0.LR0Closure[0] == Icloures && Icloures.Index == 0 && item.inIC(Icloures, item.Item{RuleIndex: 0, Dot: 0})
 //@ before_stmt [C12] "item_var := item.NewItem(0, 0)" forall s *symbol.Symbol :: has(g.VnSet, s) ==> s.CanTerminate
+
+// ---------------------------------------------------------------------------------------------
+// C19 (complete output) / wiring of the front end: the epilogue handed to the builders is the grammar text from the end of
+// the second %% on, byte for byte; the declaration visitor runs before the rule visitor on the two parts of the same tree
+//@ func (*RootVistor).Process
+//@ props_tagged_only C19 C01 C02 C04 C11 C12
+//@ requires v != nil && node != nil
+//@ before_stmt [C01,C02,C04,C11,C12] "DoWalker(&n.Declare, astv)" astv.idMaxValue == 2 && astv.precIndex == 0
+//@ before_stmt [C01,C02,C04,C11,C12] "DoWalker(&n.Rules, rulev)" rulev.astDeclareVistor == astv && len(rulev.rules) == 0
+//@ before_stmt [C19] "v.RuleVistor = rulev" v.CodeCpy == n.rest
